@@ -151,6 +151,7 @@ package tree
 //@   ensures [the_list_stays_in_storage_of_its_own] arr(*tips) == old(arr(*tips)) || fresh_arr(*tips)
 //@   ensures [only_tips_are_listed] forall k int :: {(*tips)[k]} old(len(*tips)) <= k && k < len(*tips) ==> (*tips)[k] != nil && allocated((*tips)[k]) && len((*tips)[k].neigh) == 1
 //@   call (*tree.Tree).tipsRecur [goes_to_every_neighbour_but_the_one_it_came_from] a1 == tips && a2 == n && n != prev && a3 == (cur == nil ? t.root : cur)
+//@   return [a_tip_s_neighbours_are_walked_too_nothing_ends_the_walk_before_the_neighbour_loop] ghost(entered_L1) == old(ghost(entered_L1)) + 1
 //@   loop 1
 //@     complete [all_iterations_no_early_exit]
 //@     assigns cell(tips), elems("*Node")
@@ -761,6 +762,7 @@ package tree
 //@   flag countcalls
 //@   requires t != nil && current != nil
 //@   ensures [at_most_three_neighbours_left] len(current.neigh) <= 3
+//@   call math/rand.Perm [one_random_position_per_branch_to_group_the_parent_s_branch_is_not_one_of_them] a0 == len(current.neigh) - (previous != nil ? 1 : 0)
 //@   call (*tree.Tree).ConnectNodes [detached_neighbour_goes_under_the_new_node] a1 == n2 && a2 == other && other == e.right
 //@   call (*tree.Tree).ConnectNodes [new_node_goes_under_the_current_one] a1 == n2 || (a1 == current && a2 == n2)
 //@   call (*tree.Node).delNeighbor [the_pair_forgets_each_other] (a0 == other && a1 == current) || (a0 == current && a1 == other)
@@ -1235,6 +1237,7 @@ package tree
 //@ define edgeok(e *Edge) bool = allocated(e) && allocated(e.left) && allocated(e.right) && e.left != e.right && e.length >= 0.0
 
 //@ func tree.RandomUniformBinaryTree
+//@   return@L0 [a_request_is_turned_away_before_anything_is_built_only_below_the_documented_minimum] ghost(entered_L1) == old(ghost(entered_L1)) ==> nbtips < 3
 //@   flag noframe
 //@   flag lightcalls
 //@   flag countcalls
@@ -1258,6 +1261,7 @@ package tree
 // RandomYuleBinaryTree (properties C16, C20): the new tip is grafted on the branch of a tip drawn among all the
 // tips created so far, indexes are rebuilt before the tree is returned, unrooted trees are re-rooted first
 //@ func tree.RandomYuleBinaryTree
+//@   return@L0 [a_request_is_turned_away_before_anything_is_built_only_below_the_documented_minimum] ghost(entered_L1) == old(ghost(entered_L1)) ==> nbtips < 3
 //@   flag noframe
 //@   flag lightcalls
 //@   flag countcalls
@@ -1277,6 +1281,7 @@ package tree
 // RandomCaterpillarBinaryTree (property C16): every new tip is grafted on the branch of the tip added just before;
 // indexes are rebuilt before the tree is returned, unrooted trees are re-rooted first
 //@ func tree.RandomCaterpillarBinaryTree
+//@   return@L0 [a_request_is_turned_away_before_anything_is_built_only_below_the_documented_minimum] ghost(entered_L1) == old(ghost(entered_L1)) ==> nbtips < 3
 //@   flag noframe
 //@   flag lightcalls
 //@   flag countcalls
